@@ -22,9 +22,11 @@ EXTENDS Naturals, Sequences, FiniteSets, TLC, Json
 \* "gen_phase2": gen --emit sqlalchemy --phase 2 (foreign keys of an already generated models file are resolved by LOCATING and
 \* parsing the modules its `from .. import ..` statements name -- never by importing them)
 Apis == {"parse", "emit", "doctrans", "sync", "sync_properties", "sync_properties_eval", "gen_file", "gen_prepend", "exmod", "exmod_dry",
-         "route_parse", "openapi_bulk", "gen_phase2"}
+         "route_parse", "openapi_bulk", "gen_phase2", "gen_imports_file"}
+\* "gen_imports_file": gen --imports-from-file <a source file>, the file named the way a user in the project directory names it -- a bare
+\* file name, the directory being on sys.path (`python -m cdd ...`): its import statements are READ from the text, the file is not imported
 EvalMode(api) == api \in {"sync_properties_eval", "gen_prepend"}
-OutOf(api) == CASE api \in {"doctrans", "sync", "sync_properties", "sync_properties_eval", "gen_file", "gen_prepend", "gen_phase2"} -> "file"
+OutOf(api) == CASE api \in {"doctrans", "sync", "sync_properties", "sync_properties_eval", "gen_file", "gen_prepend", "gen_phase2", "gen_imports_file"} -> "file"
                 [] api = "exmod" -> "dir" [] OTHER -> "none"
 
 \* sync_properties --input-eval is the statement's sole exception: the user asked for the input module to be evaluated,
